@@ -9,7 +9,7 @@ package flat
 // distance closure returns for it); both are functions of the point value.
 
 //@ func (IndexFlat).Search$1
-//@   property C04
+//@   property C04 C06
 //@   floats order
 //@   safety -overflow
 //@   callback distFn ensures result == pdist(arg0) && !isNaN(result)
@@ -32,7 +32,7 @@ package flat
 //@   loop 1 invariant forall(j, i+1, len(res), res[j] == old(res[j-1]) && pdist(point) < *res[j].Distance)
 
 //@ func (IndexFlat).Search
-//@   property C04
+//@   property C04 C06
 //@   floats order
 //@   safety -overflow
 //@   requires options.Limit >= 1
